@@ -9,10 +9,33 @@ Real ONNX random generators are additionally loaded with optimisation on/off: ru
 import vlib
 
 
+def add_random_cases(path, seed, count):
+    """Random members of PartialEval.tla's family with 3..4 operators (JSON format of MC_PartialEval's Emit)."""
+    import json, random
+    rnd = random.Random(seed * 104729 + 3)
+    with open(path, "a") as f:
+        for _ in range(count):
+            nops = rnd.choice([3, 3, 4])
+            ops = []
+            for i in range(1, nops + 1):
+                ins = [rnd.randrange(1, 2 + i) for _ in range(rnd.choice([1, 2]))]
+                caps = [rnd.randrange(1, 2 + i)] if rnd.random() < 0.3 else []
+                ops.append({"ins": ins, "caps": caps, "nondet": rnd.random() < 0.25})
+            nv = 2 + nops
+            r = rnd.random()
+            v = rnd.randrange(1, nv)
+            outs = [nv] if r < 0.4 else [nv, v] if r < 0.7 else [v, nv]
+            S = [x for x in (1, 2) if rnd.random() < 0.5]
+            f.write(json.dumps({"ni": 2, "ops": ops, "outs": outs, "S": S}) + "\n")
+    return count
+
+
 def run(ctx):
     ctx.build(["vh-graph"])
     cases_all = ctx.path("cases_all.jsonl")
-    cfg = "graph/MC_PartialEval2.cfg" if ctx.quick else "graph/MC_PartialEval3.cfg"
+    # (the 3-operator family has 24.9M members: both tiers model-check the complete 2-operator family; the
+    # thorough tier replays ALL of it on the real code and adds random cases with 3..4 operators)
+    cfg = "graph/MC_PartialEval2.cfg"
     n_all = ctx.tlc_generate("graph/MC_PartialEval", cfg, cases_all, workers=6, timeout=3000, heap="12g")
     lines = sorted(set(open(cases_all).read().splitlines()))
     open(cases_all, "w").write("\n".join(lines) + "\n")
@@ -23,7 +46,8 @@ def run(ctx):
             f.write(json.dumps(ctx.replay["record"]["g"]) + "\n")
         n = 1
     else:
-        n = vlib.sample_lines(cases_all, cases, 12000 if ctx.quick else 150000, ctx.seed)
+        n = vlib.sample_lines(cases_all, cases, 12000 if ctx.quick else 10**9, ctx.seed)
+        n += add_random_cases(cases, ctx.seed, 500 if ctx.quick else 60000)
     t1, t2 = ctx.path("partial.ndjson"), ctx.path("random.ndjson")
     ctx.harness("vh-graph", ["partial", "--cases", cases, "--out", t1])
     ctx.harness("vh-graph", ["partial-random", "--out", t2])
